@@ -11,6 +11,8 @@ import (
 	"strings"
 	"time"
 
+	"golang.org/x/tools/go/ssa"
+
 	"verif/internal/core"
 	"verif/internal/rules"
 )
@@ -192,6 +194,28 @@ func doDump(c *core.Ctx, what string) {
 		}
 		for sig, hs := range groups {
 			fmt.Printf("%d handlers: %v\n    %s\n", len(hs), hs, strings.ReplaceAll(sig, " ; ", "\n    "))
+		}
+	case what == "panics":
+		reach := rules.ConsensusReach(c, "dump")
+		var fns []*ssa.Function
+		for fn := range reach {
+			fns = append(fns, fn)
+		}
+		sort.Slice(fns, func(i, j int) bool { return fns[i].String() < fns[j].String() })
+		for _, fn := range fns {
+			for _, b := range fn.Blocks {
+				for _, in := range b.Instrs {
+					switch x := in.(type) {
+					case *ssa.Panic:
+						fmt.Printf("%s\t%s\tpanic(%s)\tvia %s\n", c.PosStr(x.Pos()), core.ShortFn(fn), core.Short(x.X.Type().String()), core.PathTo(reach, fn))
+					case ssa.CallInstruction:
+						n := core.CalleeName(x.Common())
+						if strings.Contains(n, "Panic") || strings.Contains(n, "Fatal") || n == "os.Exit" {
+							fmt.Printf("%s\t%s\t%s\tvia %s\n", c.PosStr(x.Pos()), core.ShortFn(fn), n, core.PathTo(reach, fn))
+						}
+					}
+				}
+			}
 		}
 	case what == "fns":
 		for _, f := range c.AllFns {
